@@ -569,6 +569,10 @@ def abstract_tail(sc: dict, tr: dict, cap: int) -> tuple[list | None, Any]:
     if not cycles:
         return None, "no-tail-pass"
     c0 = cycles[0]
+    if gone:
+        t_del = min((v["t"] for v in f.hist if v["event"] == "DELETED" and v["body"]["metadata"].get("uid") == f.uid), default=None)
+        if t_del is not None and t_del <= c0["t0"]:
+            return None, "gone-before-tail"     # only leftovers of events that were in flight when the object went away
     if any(c.get("error") for c in cycles):
         return None, "cycle-error"
     decls = c14._decls(sc)
